@@ -2,7 +2,7 @@
 (* C06 C11: three keys forced into one shard of limit 2, evictions and re-creations, with a store *)
 EXTENDS Gen_PikeCache
 MC_HasStore == [d \in Disp |-> d = "d1"]
-MC_Limit == [d \in Disp |-> 2]
+MC_Limit == [d \in Disp |-> 1]
 MC_ShardOf == [k \in Keys |-> 1]
 MC_HfpTTL == [d \in Disp |-> 1]
 =============================================================================
